@@ -618,13 +618,12 @@ fn c33(cli: &Cli) {
     let core4: Vec<u8> = vec![0, 1, 2, 3];
     if thorough {
         for seed in [Seed::WrapOnLive, Seed::WrapBeforeMax] {
-            plan.push((mk(seed, all.clone(), vec![0, 1, 2], true), 5));
+            plan.push((mk(seed, all.clone(), vec![0, 1, 2], true), 4));
+            plan.push((mk(seed, all.clone(), vec![1, 2], true), 5));
+            // deeper, on the templates that drive the registry hardest
+            plan.push((mk(seed, core4.clone(), vec![1, 2], false), 6));
         }
         plan.push((mk(Seed::Fresh, all.clone(), vec![1, 2], false), 4));
-        // deeper, on the templates that drive the registry hardest
-        for seed in [Seed::WrapOnLive, Seed::WrapBeforeMax] {
-            plan.push((mk(seed, core4.clone(), vec![1, 2], false), 7));
-        }
     } else {
         plan.push((mk(Seed::WrapOnLive, all.clone(), vec![0, 1, 2], false), 3));
         plan.push((mk(Seed::WrapOnLive, all.clone(), vec![1, 2], true), 4));
@@ -654,10 +653,9 @@ fn c33(cli: &Cli) {
         machinery_failure("replay: unknown subject");
     }
     let mut run = Run::new(cli, "model_checking");
-    let n = plan.len() as u64;
     let mut event_report = vec![];
     for (s, depth) in &plan {
-        let b = Bounds::new(*depth, cli).wall(cli.tier.pick(45, 1500 / n));
+        let b = Bounds::new(*depth, cli).wall(cli.tier.pick(45, 1200));
         let r = explore(s, &b);
         // vacuity: in a wrapped key space every registry event must have happened
         let counts: Vec<(&str, u64)> = EVENTS.iter().zip(&s.events).map(|(e, c)| (*e, c.load(Ordering::Relaxed))).collect();
